@@ -659,7 +659,7 @@ def generate_schedule(args):
         for t in range(s.n_intervals):
             cur_time += s.interval
             # charging window: curtailment present or res. load negative
-            charging_window = (curtailment[i] > EPS) or (residual_load[t] < -EPS)
+            charging_window = (curtailment[t] > EPS) or (residual_load[t] < -EPS)
             values = [
                 cur_time.isoformat(),  # timestamp
                 aggressive_round(schedule[t], 3),  # schedule rounded to Watts
